@@ -97,6 +97,7 @@ func primType(k Kind) reflect.Type {
 // TestSpec is one test declared on a node. Pred is the zog-free predicate.
 type TestSpec struct {
 	Code    string
+	Path    string // IssuePath option: the test's issue is filed under this path instead of the node's
 	Builtin bool
 	Fails   bool // struct tests: constant verdict
 	Pred    func(v reflect.Value) bool
@@ -144,6 +145,7 @@ type Node struct {
 	PostErr  int // 0: none; i>0: post number i returns an error (1-based); negative: returns *ZogIssue
 	PostWrap bool // the error returned by post number PostErr is not a ZogIssue but wraps one (%w)
 	PostMut  bool // the first post changes the value it is given
+	PostNoPath bool // the *ZogIssue returned by post number -PostErr carries no path of its own
 	Elem     *Node
 	Fields   []*Field
 	Pos      string // position label in the skeleton
@@ -195,7 +197,9 @@ func (n *Node) Describe() string {
 		sb.WriteString(".Catch(c)")
 	}
 	for _, t := range n.Tests {
-		if t.Builtin {
+		if t.Builtin && t.Path != "" {
+			sb.WriteString("." + t.Code + "(IssuePath(" + t.Path + "))")
+		} else if t.Builtin {
 			sb.WriteString("." + t.Code + "()")
 		} else if n.Kind == KStruct {
 			sb.WriteString(fmt.Sprintf(".TestFunc(%s,fails=%v)", t.Code, t.Fails))
@@ -210,6 +214,8 @@ func (n *Node) Describe() string {
 			sb.WriteString(".PostTransform(changes the value)")
 		} else if n.PostErr == i+1 {
 			sb.WriteString(".PostTransform(err)")
+		} else if n.PostErr == -(i+1) && n.PostNoPath {
+			sb.WriteString(".PostTransform(zogissue without a path)")
 		} else if n.PostErr == -(i + 1) {
 			sb.WriteString(".PostTransform(zogissue)")
 		} else {
@@ -269,6 +275,10 @@ func (n *Node) defaultValue() reflect.Value {
 		s := reflect.MakeSlice(n.GoType(), cnt, cnt)
 		for i := 0; i < cnt; i++ {
 			fillValid(s.Index(i), n.Elem, VDefault)
+		}
+		if n.DefClass == 3 && n.Elem.Kind.Prim() && n.Elem.Kind != KStr {
+			// second item: the Go zero value, which Parse treats as present (0, false, zero time)
+			s.Index(1).Set(reflect.Zero(s.Index(1).Type()))
 		}
 		return s
 	}
@@ -418,6 +428,13 @@ func mutateValue(ptr any) {
 	}
 }
 
+func pathOpts(t TestSpec) []z.TestOption {
+	if t.Path == "" {
+		return nil
+	}
+	return []z.TestOption{z.IssuePath(t.Path)}
+}
+
 type errPost struct{ who string }
 
 func (e errPost) Error() string { return "post-error:" + e.who }
@@ -457,6 +474,9 @@ func BuildZog(n *Node, r *Recorder) z.ZogSchema {
 				return errPost{who(fmt.Sprintf("post%d", i+1))}
 			}
 			if n.PostErr == -(i + 1) {
+				if n.PostNoPath {
+					return &z.ZogIssue{Code: "post_issue", Message: "from post"}
+				}
 				return &z.ZogIssue{Code: "post_issue", Path: "custom.path", Message: "from post"}
 			}
 			return nil
@@ -476,12 +496,12 @@ func BuildZog(n *Node, r *Recorder) z.ZogSchema {
 		}
 		for _, t := range n.Tests {
 			if t.Builtin && t.Code == "not_contained" {
-				s.Not().Contains("2")
+				s.Not().Contains("2", pathOpts(t)...)
 			} else if t.Builtin {
-				s.Max(5)
+				s.Max(5, pathOpts(t)...)
 			} else {
 				fn, opt := mkTest(t, true)
-				s.TestFunc(fn, opt)
+				s.TestFunc(fn, append([]z.TestOption{opt}, pathOpts(t)...)...)
 			}
 		}
 		for i := 0; i < n.NPosts; i++ {
@@ -501,10 +521,10 @@ func BuildZog(n *Node, r *Recorder) z.ZogSchema {
 		}
 		for _, t := range n.Tests {
 			if t.Builtin {
-				s.LT(100)
+				s.LT(100, pathOpts(t)...)
 			} else {
 				fn, opt := mkTest(t, true)
-				s.TestFunc(fn, opt)
+				s.TestFunc(fn, append([]z.TestOption{opt}, pathOpts(t)...)...)
 			}
 		}
 		for i := 0; i < n.NPosts; i++ {
@@ -524,10 +544,10 @@ func BuildZog(n *Node, r *Recorder) z.ZogSchema {
 		}
 		for _, t := range n.Tests {
 			if t.Builtin {
-				s.LT(100)
+				s.LT(100, pathOpts(t)...)
 			} else {
 				fn, opt := mkTest(t, true)
-				s.TestFunc(fn, opt)
+				s.TestFunc(fn, append([]z.TestOption{opt}, pathOpts(t)...)...)
 			}
 		}
 		for i := 0; i < n.NPosts; i++ {
@@ -550,7 +570,7 @@ func BuildZog(n *Node, r *Recorder) z.ZogSchema {
 				s.True()
 			} else {
 				fn, opt := mkTest(t, true)
-				s.TestFunc(fn, opt)
+				s.TestFunc(fn, append([]z.TestOption{opt}, pathOpts(t)...)...)
 			}
 		}
 		for i := 0; i < n.NPosts; i++ {
@@ -570,10 +590,10 @@ func BuildZog(n *Node, r *Recorder) z.ZogSchema {
 		}
 		for _, t := range n.Tests {
 			if t.Builtin {
-				s.After(tAfter)
+				s.After(tAfter, pathOpts(t)...)
 			} else {
 				fn, opt := mkTest(t, true)
-				s.TestFunc(fn, opt)
+				s.TestFunc(fn, append([]z.TestOption{opt}, pathOpts(t)...)...)
 			}
 		}
 		for i := 0; i < n.NPosts; i++ {
@@ -590,10 +610,10 @@ func BuildZog(n *Node, r *Recorder) z.ZogSchema {
 		}
 		for _, t := range n.Tests {
 			if t.Builtin {
-				s.Min(2)
+				s.Min(2, pathOpts(t)...)
 			} else {
 				fn, opt := mkTest(t, false)
-				s.TestFunc(fn, opt)
+				s.TestFunc(fn, append([]z.TestOption{opt}, pathOpts(t)...)...)
 			}
 		}
 		for i := 0; i < n.NPosts; i++ {
@@ -614,7 +634,7 @@ func BuildZog(n *Node, r *Recorder) z.ZogSchema {
 		s := z.Struct(sc)
 		for _, t := range n.Tests {
 			fn, opt := mkTest(t, false)
-			s.TestFunc(fn, opt)
+			s.TestFunc(fn, append([]z.TestOption{opt}, pathOpts(t)...)...)
 		}
 		for i := 0; i < n.NPosts; i++ {
 			s.PostTransform(mkPost(i))
